@@ -425,6 +425,38 @@ def if_rule(run, quick):
         run.property_failure("c04:if-differs-from-its-rule", "expand(%r) gave %r; Model.FlatCall.if_result says otherwise"
                              % (c["page"], res[idx[b]]["out"]), c["page"])
     run.extra["if_calls_checked_against_the_rule"] = len(coq_cases)
+    # ---- #ifeq
+    XS = ["", "a", " a ", "A", "1", "01", "1.0", "a b", "a  b", "\na", "x=y"]
+    cases = []
+    for _ in range(250 if quick else 4000):
+        x = rng.choice(XS)
+        more = [rng.choice(XS if k == 0 else VALS) for k in range(rng.randint(0, 4))]
+        if more and rng.random() < 0.4:
+            more[0] = rng.choice([x, " " + x + " ", x.strip()])
+        cases.append({"lib": [], "page": "{{#ifeq:" + "|".join([x] + more) + "}}", "opts": {}, "title": "Tt"})
+    res = lib.run_impl("expandlib", cases, shards=lib.NCPU)
+    coq_cases, idx = [], []
+    for i, (c, r) in enumerate(zip(cases, res)):
+        run.count({"ifeq": c["page"]}, c["page"].count("|") >= 3, "ifeq-plain")
+        if r.get("outcome") != "ok":
+            run.property_failure("ifeq:%s:%s" % (r.get("outcome"), r.get("exc", "")), "expand() did not return normally: %r" % (r,), c["page"])
+            continue
+        pa = r["page_ast"]
+        if len(pa) != 1 or isinstance(pa[0], int) or pa[0][0] != "T" or any(not isinstance(y, int) for a in pa[0][1] for y in a) \
+                or pa[0][1][0][:6] != [35, 105, 102, 101, 113, 58]:
+            run.correspondence_break("a generated #ifeq call was not read as one call with plain arguments", c["page"], page_ast=pa)
+            continue
+        coq_cases.append("(%s, %s, %s)" % (G.coq_enc(pa[0][1][0][6:]), clist(pa[0][1][1:], G.coq_enc, "enc"), cstr(r["out"])))
+        idx.append(i)
+    bad, errs = lib.coq_eval_failing("c04j", IMPORTS + ["Model.FlatCall"], "enc * list enc * str", coq_cases,
+                                     "fun '(c, m, o) => str_eqb (codes (ifeq_result c m)) o", chunk=350)
+    for e in errs:
+        run.correspondence_break("model evaluation failed (#ifeq rule)", None, error=e)
+    for b in bad:
+        c = cases[idx[b]]
+        run.property_failure("c04:ifeq-differs-from-its-rule", "expand(%r) gave %r; Model.FlatCall.ifeq_result says otherwise"
+                             % (c["page"], res[idx[b]]["out"]), c["page"])
+    run.extra["ifeq_calls_checked_against_the_rule"] = len(coq_cases)
 
 
 def run(run):
